@@ -1,21 +1,24 @@
 (* XCodegenProgram.v -- whole programs of the fragment, end to end: XSem.run p inp = Behaviour b  ->  the image the
    model lays out for p shows b on Isa.run.
 
-   model_compile frames opt p: p is the program as the code generator reads it (the output of XConstProp.front);
-   frames gives each procedure's frame numbers (size, usable slots, outgoing words) -- xcmp computes them itself,
-   tools/c01.py reads them off its listing.  The image is laid out as xcmp does:
-       BR _start; DATA 199997; one DATA 0 per global variable, then per procedure one per local variable (xcmp
-       allocates these, unused); _start: LDAP _exit; BR main; _exit: LDBM 1; LDAC 0; STAI 2; SVC;
+   model_compile prm opt p: p is the program as the code generator reads it (the output of XConstProp.front);
+   prm gives each procedure's frame numbers (size, usable slots, outgoing words) and the order of the constant pool
+   -- xcmp computes them itself, tools/c01.py reads them off its listing.  The image is laid out as xcmp does:
+       BR _start; DATA <initial stack pointer>; per global variable a DATA 0, per global array a DATA <address of
+       its cells> (the cells end at the top of memory, 200000; the first declared array highest; the stack pointer
+       starts 3 words below the lowest cell); per procedure the pool constants first used in it and one DATA 0 per
+       local variable (xcmp allocates these, unused); _start: LDAP _exit; BR main; _exit: LDBM 1; LDAC 0; STAI 2; SVC;
        then each procedure's code at its entry label: prologue ++ cs body ++ exit label ++ epilogue
    (opt = true: after the model's peephole pass, which is what xcmp emits; opt = false: the lowered code the proofs
    speak of), by the assembler model AsmLayout.assemble_directives.  The result is VALIDATED by computation before
    it is returned (None otherwise): the ISA's own decoder reads the stub and every procedure's code at the label
-   positions of the layout (XCodegenImage.code_chk), the loaded words hold those bytes, the stack pointer word and
-   the data words are where the code expects them, the procedures are simple and their frame numbers consistent,
-   and the stack has room for XSem's depth bound.
+   positions of the layout (XCodegenImage.code_chk), the loaded words hold those bytes, the stack pointer word, the
+   data words and the pool are where the code expects them, XSem's initial state (init_globals) has the variables
+   unassigned and the arrays empty with the lengths of the layout, the procedures are simple and their frame
+   numbers consistent, and the stack has room for XSem's depth bound.
    program_correct: for opt = false, if model_compile returns an image and XSem.run gives a Behaviour, the ISA
    started on that image shows it. *)
-From Coq Require Import ZArith List String Bool Lia.
+From Coq Require Import ZArith List String Bool Lia FMapPositive.
 From HexVerif Require Import WMap Isa XAst XSem XSemProps AsmModel AsmLayout AsmSpec AsmSpecProofs
      XCodegenIsa XCodegenInv XCodegenExpr XCodegenStmt XCodegenCall XCodegenImage.
 Import ListNotations.
@@ -23,24 +26,82 @@ Local Open Scope string_scope.
 Local Open Scope Z_scope.
 Local Open Scope list_scope.
 
-Definition sp0 : Z := 199997.
+Definition MAXW : Z := 200000.           (* hex::MAX_MEMORY_SIZE_WORDS *)
 Definition entry_label (i : nat) : label := 1000000 + Z.of_nat i.
 Definition L_start : label := 2000000.
 Definition L_exit : label := 2000001.
-Definition pool0 : Z -> option Z := fun _ => None.
+(* what the caller of the model supplies: each procedure's frame numbers (size, usable slots, outgoing words) and
+   the values of the constant pool in the order xcmp allocates them (tools read both off xcmp's listing) *)
+Record params := { p_frames : string -> option (Z * Z * Z); p_pool : list Z }.
 Definition frames := string -> option (Z * Z * Z).
 
-(* global variables in declaration order; arrays are outside the fragment *)
-Fixpoint gvar_names (ds : list decl) : option (list string) :=
+(* the literals of a body (any order): a pool constant belongs to the first procedure that mentions it *)
+Fixpoint lits_expr (e : expr) : list Z :=
+  match e with
+  | ENum n => [signed32 n]
+  | ESub _ i => lits_expr i
+  | ECall _ args => flat_map lits_expr args
+  | ESys _ args => flat_map lits_expr args
+  | EUn _ a => lits_expr a
+  | EBin _ l r => lits_expr l ++ lits_expr r
+  | _ => []
+  end.
+Fixpoint lits_stmt (s : stmt) : list Z :=
+  match s with
+  | SReturn e => lits_expr e
+  | SIf c t e => lits_expr c ++ lits_stmt t ++ lits_stmt e
+  | SWhile c b => lits_expr c ++ lits_stmt b
+  | SSeq ss => flat_map lits_stmt ss
+  | SAssign _ e => lits_expr e
+  | SAssignSub _ i e => lits_expr i ++ lits_expr e
+  | SCall _ args => flat_map lits_expr args
+  | SSys _ args => flat_map lits_expr args
+  | _ => []
+  end.
+Definition zmem (v : Z) (l : list Z) : bool := existsb (Z.eqb v) l.
+Definition nlocals (p : proc) : nat := List.length (filter is_var_decl (locals p)).
+Fixpoint addrs_from (a : Z) (l : list Z) : list (Z * Z) :=
+  match l with [] => [] | v :: r => (v, a) :: addrs_from (a + 1) r end.
+(* xcmp's data section after the global variables: per procedure, the pool constants first used in it, then one
+   (unused) word per local variable *)
+Fixpoint pool_go (order : list Z) (ps : list proc) (seen : list Z) (addr : Z) : list (Z * Z) * list Z :=
+  match ps with
+  | [] => ([], [])
+  | p :: r =>
+      let mine := filter (fun v => zmem v (lits_stmt (body p)) && negb (zmem v seen)) order in
+      let '(tbl, words) := pool_go order r (mine ++ seen) (addr + Z.of_nat (List.length mine) + Z.of_nat (nlocals p)) in
+      (addrs_from addr mine ++ tbl, mine ++ repeat 0 (nlocals p) ++ words)
+  end.
+Fixpoint zassoc (v : Z) (t : list (Z * Z)) : option Z :=
+  match t with [] => None | (k, a) :: r => if k =? v then Some a else zassoc v r end.
+
+(* the global declarations that get a data word, in order: a variable (None) or an array with its length *)
+Fixpoint gdecls (ds : list decl) : option (list (string * option Z)) :=
   match ds with
   | [] => Some []
-  | DVal _ _ :: r => gvar_names r
-  | DVar x :: r => match gvar_names r with Some l => Some (x :: l) | None => None end
+  | DVal _ _ :: r => gdecls r
+  | DVar x :: r => match gdecls r with Some l => Some ((x, None) :: l) | None => None end
+  | DArray x (ENum n) :: r =>
+      if 0 <=? signed32 n then match gdecls r with Some l => Some ((x, Some (signed32 n)) :: l) | None => None end else None
   | DArray _ _ :: _ => None
   end.
-Fixpoint gval_names (ds : list decl) : list string :=
-  match ds with [] => [] | DVal x _ :: r => x :: gval_names r | _ :: r => gval_names r end.
-Definition gaddr_of (names : list string) (x : string) : option Z := index_of x names 2.
+(* xcmp's allocation: declaration k gets data word 2 + k; the cells of an array lie just below those of the arrays
+   declared before it, the first ones ending at the top of memory.  Returns the variables (name, word), the arrays
+   (name, (word, address of the cells, length)), the data words, and the lowest cell address *)
+Fixpoint gtab (gd : list (string * option Z)) (w : Z) (top : Z)
+  : list (string * Z) * list (string * (Z * Z * Z)) * list Z * Z :=
+  match gd with
+  | [] => ([], [], [], top)
+  | (x, None) :: r => let '(vs, ars, dw, t) := gtab r (w + 1) top in ((x, w) :: vs, ars, 0 :: dw, t)
+  | (x, Some n) :: r => let '(vs, ars, dw, t) := gtab r (w + 1) (top - n) in (vs, (x, (w, top - n, n)) :: ars, (top - n) :: dw, t)
+  end.
+Definition a_word (t : Z * Z * Z) : Z := fst (fst t).
+Definition a_base (t : Z * Z * Z) : Z := snd (fst t).
+Definition a_len (t : Z * Z * Z) : Z := snd t.
+Definition aaddr_of (ars : list (string * (Z * Z * Z))) (x : string) : option Z := option_map a_word (assoc x ars).
+Definition abase_of (ars : list (string * (Z * Z * Z))) (x : string) : Z := match assoc x ars with Some t => a_base t | None => 0 end.
+Definition alen_of_tab (ars : list (string * (Z * Z * Z))) (x : string) : Z := match assoc x ars with Some t => a_len t | None => 0 end.
+Fixpoint zdup (l : list Z) : bool := match l with [] => false | x :: r => zmem x r || zdup r end.
 
 Fixpoint pinfo_go (ps : list proc) (i : nat) (x : string) : option pframe :=
   match ps with
@@ -52,16 +113,16 @@ Fixpoint pinfo_go (ps : list proc) (i : nat) (x : string) : option pframe :=
 (* one procedure of the image: its frame numbers and labels, and the code of its body *)
 Record pent := { pe_proc : proc; pe_lay : playout; pe_body : list instr }.
 
-Fixpoint ents_go (fr : frames) (pinfo : string -> option pframe) (gaddr : string -> option Z)
+Fixpoint ents_go (fr : frames) (pinfo : string -> option pframe) (gaddr aaddr : string -> option Z) (pool : Z -> option Z)
                  (ps : list proc) (next : label) : option (list pent) :=
   match ps with
   | [] => Some []
   | p :: r =>
       match fr (pname p) with
       | Some (size, nslots, og) =>
-          match cs pinfo (frame_venv gaddr p size) pool0 size nslots (first_temp p) og next (body p) (next + 1) with
+          match cs pinfo (frame_venv gaddr p size) pool size nslots (frame_aenv aaddr p size) (first_temp p) og next (body p) (next + 1) with
           | Some (bc, n') =>
-              match ents_go fr pinfo gaddr r n' with
+              match ents_go fr pinfo gaddr aaddr pool r n' with
               | Some rest => Some ({| pe_proc := p; pe_body := bc;
                                       pe_lay := {| pl_size := size; pl_nslots := nslots; pl_og := og; pl_exit := next; pl_n0 := next + 1 |} |} :: rest)
               | None => None
@@ -85,18 +146,16 @@ Fixpoint proc_dirs (opt : bool) (es : list pent) (i : nat) : list directive :=
   | e :: r => DLabel LId (lname (entry_label i)) :: map dir_of (pe_code opt e) ++ proc_dirs opt r (S i)
   end.
 
-Definition local_words (ps : list proc) : nat :=
-  fold_right (fun p n => (List.length (filter is_var_decl (locals p)) + n)%nat) 0%nat ps.
-
-Definition prog_dirs (opt : bool) (nglob : nat) (ps : list proc) (es : list pent) (main_entry : label) : list directive :=
-  [DRef TBR (lname L_start) true; DData sp0] ++ repeat (DData 0) (nglob + local_words ps) ++
+Definition prog_dirs (opt : bool) (sp0 : Z) (gwords dwords : list Z) (es : list pent) (main_entry : label) : list directive :=
+  [DRef TBR (lname L_start) true; DData sp0] ++ map DData gwords ++ map DData dwords ++
   [DLabel LId (lname L_start)] ++ map dir_of (stub1 main_entry ++ stub2) ++ proc_dirs opt es 0.
 
 (* ---- the validation *)
-Definition simple_procb (gaddr : string -> option Z) (p : proc) : bool :=
-  forallb is_val_formal (formals p) && forallb is_var_decl (locals p) &&
+Definition simple_procb (gaddr aaddr : string -> option Z) (p : proc) : bool :=
+  forallb (fun f => is_val_formal f || is_arr_formal f) (formals p) && forallb is_var_decl (locals p) &&
   negb (has_dup (map formal_nm (formals p) ++ map local_decl_name (locals p))) &&
-  forallb (fun x => match gaddr x with None => true | Some _ => false end) (map formal_nm (formals p) ++ map local_decl_name (locals p)).
+  forallb (fun x => match gaddr x with None => true | Some _ => false end) (map formal_nm (formals p) ++ map local_decl_name (locals p)) &&
+  forallb (fun x => match aaddr x with None => true | Some _ => false end) (map formal_nm (formals p) ++ map local_decl_name (locals p)).
 
 Definition numbers_okb (maxframe : Z) (p : proc) (L : playout) : bool :=
   (0 <=? pl_size L) && (pl_size L <=? maxframe) && (first_temp p <=? pl_nslots L) && (0 <=? pl_og L) &&
@@ -104,16 +163,16 @@ Definition numbers_okb (maxframe : Z) (p : proc) (L : playout) : bool :=
 
 Definition maxframe_of (es : list pent) : Z := fold_right (fun e m => Z.max (pl_size (pe_lay e)) m) 2 es.
 
-Fixpoint ents_chk (lab : label -> Z) (img : WMap.t) (gaddr : string -> option Z) (vals : list string) (maxframe lo hi : Z)
+Fixpoint ents_chk (lab : label -> Z) (img : WMap.t) (gaddr aaddr : string -> option Z) (vals : list string) (maxframe lo hi : Z)
                   (es : list pent) (i : nat) : bool :=
   match es with
   | [] => true
   | e :: r =>
-      simple_procb gaddr (pe_proc e) && numbers_okb maxframe (pe_proc e) (pe_lay e) &&
+      simple_procb gaddr aaddr (pe_proc e) && numbers_okb maxframe (pe_proc e) (pe_lay e) &&
       negb (mem_str (pname (pe_proc e)) vals) &&
       (lo <=? lab (entry_label i)) &&
       match code_chk lab img (lab (entry_label i)) (pe_code false e) with Some endp => endp <=? hi | None => false end &&
-      ents_chk lab img gaddr vals maxframe lo hi r (S i)
+      ents_chk lab img gaddr aaddr vals maxframe lo hi r (S i)
   end.
 
 Fixpoint find_index (x : string) (ps : list proc) (i : nat) : option (nat * proc) :=
@@ -121,16 +180,21 @@ Fixpoint find_index (x : string) (ps : list proc) (i : nat) : option (nat * proc
 
 Record compiled := { c_bytes : list Z; c_words : list Z }.
 
-Definition model_compile (fr : frames) (opt : bool) (p : program) : option (list Z) :=
-  match gvar_names (globals p) with
-  | None => None
-  | Some gnames =>
-  let gaddr := gaddr_of gnames in
+Definition is_undef (v : value) : bool := match v with Vundef => true | _ => false end.
+Definition model_compile (prm : params) (opt : bool) (p : program) : option (list Z) :=
+  match gdecls (globals p), init_globals (globals p) [] [] [] with
+  | Some gd, inr (gv, vars, arrs) =>
+  let '(vs, ars, gwords, atop) := gtab gd 2 MAXW in
+  let sp0 := atop - 3 in
+  let gaddr := fun x => assoc x vs in
+  let aaddr := aaddr_of ars in
   let pinfo := pinfo_go (procs p) 0 in
-  match find_index "main" (procs p) 0%nat, ents_go fr pinfo gaddr (procs p) 0 with
+  let ngd := Z.of_nat (List.length gd) in
+  let '(tbl, dwords) := pool_go (p_pool prm) (procs p) [] (2 + ngd) in
+  let pool := fun v => zassoc v tbl in
+  match find_index "main" (procs p) 0%nat, ents_go (p_frames prm) pinfo gaddr aaddr pool (procs p) 0 with
   | Some (mi, pm), Some es =>
-      let nglob := List.length gnames in
-      let dirs := prog_dirs opt nglob (procs p) es (entry_label mi) in
+      let dirs := prog_dirs opt sp0 gwords dwords es (entry_label mi) in
       match assemble_directives dirs [] with
       | Ok out =>
           let bytes := ao_image out in
@@ -140,25 +204,40 @@ Definition model_compile (fr : frames) (opt : bool) (p : program) : option (list
           let m0 := mem_of bytes in
           let lab := lab_of (ao_layout out) in
           let clo := lab L_start in
-          let vals := gval_names (globals p) in
+          let vals := map fst gv in
           let maxframe := maxframe_of es in
+          let cw := 2 + ngd + Z.of_nat (List.length dwords) in
           if opt then Some words else
           if negb (is_func pm) && (match formals pm with [] => true | _ => false end) &&
              (rd m0 1 =? sp0) &&
-             (clo =? 4 * (2 + Z.of_nat nglob + Z.of_nat (local_words (procs p)))) &&
-             (Z.of_nat (List.length bytes) =? 4 * nwords) &&
-             forallb (fun x => negb (mem_str x vals)) gnames &&
+             (clo =? 4 * cw) &&
+             forallb (fun va => (2 + ngd <=? snd va) && (snd va <? cw) && (rd m0 (snd va) =? fst va mod W)) tbl &&
+             (* the global variables: their words, and what XSem makes of them *)
+             forallb (fun xw => (2 <=? snd xw) && (snd xw <? 2 + ngd) && negb (mem_str (fst xw) vals) &&
+                                match assoc (fst xw) vars with Some v => is_undef v | None => false end) vs &&
+             (* the arrays: the word holds the address of the cells, which lie between the root frame and the top *)
+             forallb (fun xt => let t := snd xt in
+                        (2 <=? a_word t) && (a_word t <? 2 + ngd) && (rd m0 (a_word t) =? a_base t) &&
+                        (sp0 + 3 <=? a_base t) && (0 <=? a_len t) && (a_base t + a_len t <=? MAXW) &&
+                        match assoc (fst xt) arrs with
+                        | Some ar => (alen ar =? a_len t) && PositiveMap.is_empty (acells ar)
+                        | None => false end &&
+                        negb (mem_str (fst xt) vals) && (match assoc (fst xt) vars with None => true | Some _ => false end) &&
+                        forallb (fun xt' => String.eqb (fst xt) (fst xt') || (a_base t + a_len t <=? a_base (snd xt')) ||
+                                            (a_base (snd xt') + a_len (snd xt') <=? a_base t)) ars) ars &&
+             negb (zdup (map snd vs ++ map (fun xt => a_word (snd xt)) ars)) &&
              match code_chk lab img 0 [BR L_start] with Some e => e <=? 4 | None => false end &&
              match code_chk lab img clo (stub1 (entry_label mi) ++ stub2) with Some e => e <=? 4 * nwords | None => false end &&
              bytes_ok m0 img 0 4%nat &&
              bytes_ok m0 img clo (Z.to_nat (4 * nwords - clo)) &&
-             ents_chk lab img gaddr vals maxframe clo (4 * nwords) es 0 &&
-             (nwords + 2000 * maxframe <=? sp0)
+             ents_chk lab img gaddr aaddr vals maxframe clo (4 * nwords) es 0 &&
+             (nwords + 2000 * maxframe <=? sp0) && (sp0 + 3 <=? MAXW)
           then Some words else None
       | _ => None
       end
   | _, _ => None
   end
+  | _, _ => None
   end.
 
 (* ---------------------------------------------------------------- what the validation means *)
@@ -174,10 +253,10 @@ Proof.
   induction l as [|x r IH]; cbn [has_dup]; intros H; [constructor|].
   apply Bool.orb_false_iff in H. destruct H as [H1 H2]. constructor; [exact (mem_str_notin _ _ H1) | exact (IH H2)].
 Qed.
-Lemma val_formals fs : forallb is_val_formal fs = true -> fs = map FVal (map formal_nm fs).
+Lemma val_formals fs : forallb (fun f => is_val_formal f || is_arr_formal f) fs = true ->
+  forall f, In f fs -> is_val_formal f = true \/ is_arr_formal f = true.
 Proof.
-  induction fs as [|f r IH]; cbn [forallb map]; intros H; [reflexivity|]. apply andb_prop in H. destruct H as [H1 H2].
-  destruct f; try discriminate H1. cbn [formal_nm]. f_equal. exact (IH H2).
+  intros H f Hin. rewrite forallb_forall in H. specialize (H f Hin). apply Bool.orb_true_iff in H. exact H.
 Qed.
 Lemma var_decls ds : forallb is_var_decl ds = true -> ds = map DVar (map local_decl_name ds).
 Proof.
@@ -185,14 +264,15 @@ Proof.
   destruct d; try discriminate H1. cbn [local_decl_name]. f_equal. exact (IH H2).
 Qed.
 
-Lemma simple_procb_sound gaddr p : simple_procb gaddr p = true ->
-  simple_proc gaddr p (map formal_nm (formals p)) (map local_decl_name (locals p)).
+Lemma simple_procb_sound gaddr aaddr p : simple_procb gaddr aaddr p = true ->
+  simple_proc gaddr aaddr p (map formal_nm (formals p)) (map local_decl_name (locals p)).
 Proof.
-  unfold simple_procb. intros H. apply andb_prop in H. destruct H as [H H4]. apply andb_prop in H. destruct H as [H H3].
-  apply andb_prop in H. destruct H as [H1 H2].
-  split; [exact (val_formals _ H1)|]. split; [exact (var_decls _ H2)|]. split.
+  unfold simple_procb. intros H. apply andb_prop in H. destruct H as [H H5]. apply andb_prop in H. destruct H as [H H4].
+  apply andb_prop in H. destruct H as [H H3]. apply andb_prop in H. destruct H as [H1 H2].
+  split; [split; [reflexivity | exact (val_formals _ H1)]|]. split; [exact (var_decls _ H2)|]. split; [|split].
   - apply has_dup_nodup. apply Bool.negb_true_iff in H3. exact H3.
   - intros x Hx. rewrite forallb_forall in H4. specialize (H4 x Hx). destruct (gaddr x); [discriminate | reflexivity].
+  - intros x Hx. rewrite forallb_forall in H5. specialize (H5 x Hx). destruct (aaddr x); [discriminate | reflexivity].
 Qed.
 
 Lemma numbers_okb_sound maxframe p L : numbers_okb maxframe p L = true -> numbers_ok maxframe p L.
@@ -226,24 +306,24 @@ Proof.
   destruct (String.eqb x (pname p)); [inversion H; subst; split; reflexivity | exact (IH _ _ _ _ H)].
 Qed.
 
-Lemma ents_go_spec fr pinfo gaddr : forall ps next es, ents_go fr pinfo gaddr ps next = Some es ->
+Lemma ents_go_spec fr pinfo gaddr aaddr pool : forall ps next es, ents_go fr pinfo gaddr aaddr pool ps next = Some es ->
   forall k pr, nth_error ps k = Some pr -> exists e n', nth_error es k = Some e /\ pe_proc e = pr /\
-    cs pinfo (frame_venv gaddr pr (pl_size (pe_lay e))) pool0 (pl_size (pe_lay e)) (pl_nslots (pe_lay e)) (first_temp pr)
+    cs pinfo (frame_venv gaddr pr (pl_size (pe_lay e))) pool (pl_size (pe_lay e)) (pl_nslots (pe_lay e)) (frame_aenv aaddr pr (pl_size (pe_lay e))) (first_temp pr)
        (pl_og (pe_lay e)) (pl_exit (pe_lay e)) (body pr) (pl_n0 (pe_lay e)) = Some (pe_body e, n').
 Proof.
   induction ps as [|p r IH]; intros next es H k pr Hk; [destruct k; discriminate|]. cbn [ents_go] in H.
   destruct (fr (pname p)) as [[[size nslots] og]|]; [|discriminate].
-  destruct (cs pinfo (frame_venv gaddr p size) pool0 size nslots (first_temp p) og next (body p) (next + 1)) as [[bc n']|] eqn:Ec; [|discriminate].
-  destruct (ents_go fr pinfo gaddr r n') as [rest|] eqn:Er; [|discriminate]. inversion H; subst es.
+  destruct (cs pinfo (frame_venv gaddr p size) pool size nslots (frame_aenv aaddr p size) (first_temp p) og next (body p) (next + 1)) as [[bc n']|] eqn:Ec; [|discriminate].
+  destruct (ents_go fr pinfo gaddr aaddr pool r n') as [rest|] eqn:Er; [|discriminate]. inversion H; subst es.
   destruct k as [|k].
   - cbn [nth_error] in Hk. inversion Hk; subst pr. eexists. exists n'. cbn [nth_error]. split; [reflexivity|].
     cbn [pe_proc pe_lay pe_body pl_size pl_nslots pl_og pl_exit pl_n0]. split; [reflexivity | exact Ec].
   - cbn [nth_error] in *. exact (IH _ _ Er k pr Hk).
 Qed.
 
-Lemma ents_chk_spec lab img gaddr vals maxframe lo hi : forall es i, ents_chk lab img gaddr vals maxframe lo hi es i = true ->
+Lemma ents_chk_spec lab img gaddr aaddr vals maxframe lo hi : forall es i, ents_chk lab img gaddr aaddr vals maxframe lo hi es i = true ->
   forall k e, nth_error es k = Some e ->
-    simple_procb gaddr (pe_proc e) = true /\ numbers_okb maxframe (pe_proc e) (pe_lay e) = true /\
+    simple_procb gaddr aaddr (pe_proc e) = true /\ numbers_okb maxframe (pe_proc e) (pe_lay e) = true /\
     mem_str (pname (pe_proc e)) vals = false /\ lo <= lab (entry_label (i + k)) /\
     exists endp, code_chk lab img (lab (entry_label (i + k))) (pe_code false e) = Some endp /\ endp <= hi.
 Proof.
@@ -258,31 +338,48 @@ Proof.
   - cbn [nth_error] in Hk. replace (i + S k)%nat with (S i + k)%nat by lia. exact (IH _ H6 k e Hk).
 Qed.
 
-(* the global declarations of the fragment as XSem initialises them *)
-Lemma init_globals_spec : forall ds gn vals vars arrs vals' vars' arrs',
-  gvar_names ds = Some gn -> init_globals ds vals vars arrs = inr (vals', vars', arrs') ->
-  arrs' = arrs /\
-  (forall x, assoc x vals' <> None -> In x (gval_names ds) \/ assoc x vals <> None) /\
-  (forall x v, assoc x vars' = Some v -> v = Vundef \/ assoc x vars = Some v) /\
-  (forall x, In x gn \/ assoc x vars <> None -> assoc x vars' <> None).
+(* ---- tables *)
+Lemma assoc_in {A} x : forall (l : list (string * A)) v, assoc x l = Some v -> In (x, v) l.
 Proof.
-  induction ds as [|d r IH]; intros gn vals vars arrs vals' vars' arrs' Hg Hi; cbn [gvar_names init_globals gval_names] in *.
-  - inversion Hg; subst gn. inversion Hi; subst. split; [reflexivity|]. split; [intros x H; right; exact H|].
-    split; [intros x v H; right; exact H|]. intros x [[]|H]; exact H.
-  - destruct d as [x e|x|x e]; [| |discriminate].
-    + destruct (eval_const (fun y => assoc y vals) e) as [u|z]; [discriminate|].
-      destruct (IH _ _ _ _ _ _ _ Hg Hi) as (A & B & D & E). split; [exact A|]. split; [|exact (conj D E)].
-      intros y Hy. destruct (B y Hy) as [Hin|Hn]; [left; right; exact Hin|].
-      cbn [assoc] in Hn. destruct (String.eqb y x) eqn:Ey; [left; left; apply String.eqb_eq in Ey; auto | right; exact Hn].
-    + destruct (gvar_names r) as [gr|] eqn:Eg; [|discriminate]. inversion Hg; subst gn.
-      destruct (IH _ _ _ _ _ _ _ eq_refl Hi) as (A & B & D & E). split; [exact A|]. split; [exact B|]. split.
-      * intros y v Hy. destruct (D y v Hy) as [Hu|Hs]; [left; exact Hu|].
-        cbn [assoc] in Hs. destruct (String.eqb y x); [left; inversion Hs; reflexivity | right; exact Hs].
-      * intros y Hy. apply E. destruct Hy as [[<-|Hin]|Hn].
-        -- right. cbn [assoc]. rewrite String.eqb_refl. discriminate.
-        -- left. exact Hin.
-        -- right. cbn [assoc]. destruct (String.eqb y x); [discriminate | exact Hn].
+  induction l as [|[y w] r IH]; intros v H; cbn [assoc] in H; [discriminate|].
+  destruct (String.eqb x y) eqn:E; [apply String.eqb_eq in E; inversion H; subst; left; reflexivity | right; exact (IH _ H)].
 Qed.
+Lemma assoc_notin {A} x : forall (l : list (string * A)), ~ In x (map fst l) -> assoc x l = None.
+Proof.
+  induction l as [|[y w] r IH]; intros H; cbn [assoc]; [reflexivity|]. cbn [map fst In] in H.
+  destruct (String.eqb x y) eqn:E; [apply String.eqb_eq in E; subst; exfalso; apply H; left; reflexivity|].
+  apply IH. intros Hin. apply H. right. exact Hin.
+Qed.
+Lemma zmem_in v l : zmem v l = true <-> In v l.
+Proof.
+  unfold zmem. rewrite existsb_exists. split.
+  - intros (x & Hx & He). apply Z.eqb_eq in He. subst. exact Hx.
+  - intros H. exists v. split; [exact H | apply Z.eqb_refl].
+Qed.
+Lemma zdup_nodup l : zdup l = false -> NoDup l.
+Proof.
+  induction l as [|x r IH]; cbn [zdup]; intros H; [constructor|]. apply Bool.orb_false_iff in H. destruct H as [H1 H2].
+  constructor; [|exact (IH H2)]. intros Hin. apply zmem_in in Hin. congruence.
+Qed.
+Lemma nodup_app_disj {A} (l1 l2 : list A) x : NoDup (l1 ++ l2) -> In x l1 -> In x l2 -> False.
+Proof.
+  induction l1 as [|y r IH]; intros Hnd H1 H2; [destruct H1|]. cbn [app] in Hnd. inversion Hnd as [|? ? Hn Hnd']; subst.
+  destruct H1 as [->|H1]; [apply Hn; apply in_or_app; right; exact H2 | exact (IH Hnd' H1 H2)].
+Qed.
+Lemma nodup_map_inj {A B} (f : A -> B) : forall l a b, NoDup (map f l) -> In a l -> In b l -> f a = f b -> a = b.
+Proof.
+  induction l as [|x r IH]; intros a b Hnd Ha Hb Hf; [destruct Ha|]. cbn [map] in Hnd. inversion Hnd as [|? ? Hn Hnd']; subst.
+  destruct Ha as [->|Ha]; destruct Hb as [->|Hb]; [reflexivity | | |exact (IH a b Hnd' Ha Hb Hf)].
+  - exfalso. apply Hn. rewrite Hf. apply in_map. exact Hb.
+  - exfalso. apply Hn. rewrite <- Hf. apply in_map. exact Ha.
+Qed.
+Lemma nodup_app_l {A} (l1 l2 : list A) : NoDup (l1 ++ l2) -> NoDup l1.
+Proof.
+  induction l1 as [|y r IH]; intros H; [constructor|]. cbn [app] in H. inversion H as [|? ? Hn Hnd]; subst.
+  constructor; [intros Hin; apply Hn; apply in_or_app; left; exact Hin | exact (IH Hnd)].
+Qed.
+Lemma nodup_app_r {A} (l1 l2 : list A) : NoDup (l1 ++ l2) -> NoDup l2.
+Proof. induction l1 as [|y r IH]; intros H; [exact H|]. cbn [app] in H. inversion H; subst. auto. Qed.
 
 (* ---------------------------------------------------------------- what an image shows (as in Properties_C01.v) *)
 Definition console_input (inp : list Z) : inputs := {| console := inp; files := fun _ => [] |}.
@@ -318,9 +415,15 @@ Definition L_root : playout := {| pl_size := 2; pl_nslots := 0; pl_og := 2; pl_e
 Section Run.
   Variable fr : frames.
   Variable p : program.
-  Variables (gnames : list string) (mi : nat) (pm : proc) (es : list pent) (out : asm_out).
+  Variables (vs : list (string * Z)) (ars : list (string * (Z * Z * Z))) (ngd : Z) (sp0 : Z).
+  Variables (mi : nat) (pm : proc) (es : list pent) (out : asm_out) (tbl : list (Z * Z)) (ndw : nat).
+  Variables (gv : list (string * Z)) (vars : list (string * value)) (arrs : list (string * arr)).
   Notation ps := (procs p).
-  Notation gaddr := (gaddr_of gnames).
+  Notation gaddr := (fun x => assoc x vs).
+  Notation aaddr := (aaddr_of ars).
+  Notation abase := (abase_of ars).
+  Notation alen_of := (alen_of_tab ars).
+  Notation pool := (fun v => zassoc v tbl).
   Notation pinfo := (pinfo_go (procs p) 0).
   Notation bytes := (ao_image out).
   Notation words := (words_of_bytes (ao_image out)).
@@ -328,31 +431,40 @@ Section Run.
   Notation img := (bytes_map (ao_image out)).
   Notation m0 := (mem_of (ao_image out)).
   Notation lab := (lab_of (ao_layout out)).
-  Notation vals := (gval_names (globals p)).
+  Notation vals := (map fst gv).
   Notation maxframe := (maxframe_of es).
-  Notation cw := (2 + Z.of_nat (List.length gnames) + Z.of_nat (local_words (procs p))).
+  Notation cw := (2 + ngd + Z.of_nat ndw).
   Notation clo := (lab_of (ao_layout out) L_start).
-  Definition Pw (a : Z) : Prop := a = 0 \/ cw <= a < nwords.
+  Notation stack_hi := (sp0 + 3).
+  Definition Pw (a : Z) : Prop := a = 0 \/ In a (map snd tbl) \/ cw <= a < nwords.
   Notation Cw := (C Pw m0).
 
-  Hypothesis Hg : gvar_names (globals p) = Some gnames.
+  Hypothesis Hngd : 0 <= ngd.
   Hypothesis Hmain : find_index "main" ps 0 = Some (mi, pm).
-  Hypothesis Hents : ents_go fr pinfo gaddr ps 0 = Some es.
+  Hypothesis Hents : ents_go fr pinfo gaddr aaddr pool ps 0 = Some es.
+  Hypothesis Htbl : forall v a, In (v, a) tbl -> 2 + ngd <= a < cw /\ rd m0 a = v mod W.
   Hypothesis Hpm : is_func pm = false /\ formals pm = [].
   Hypothesis Hsp : rd m0 1 = sp0.
   Hypothesis Hclo : clo = 4 * cw.
-  Hypothesis Hgv : forall x, In x gnames -> ~ In x vals.
+  Hypothesis Hvs : forall x w, In (x, w) vs -> 2 <= w < 2 + ngd /\ ~ In x vals /\ assoc x vars = Some Vundef.
+  Hypothesis Hars : forall x t, In (x, t) ars ->
+    2 <= a_word t < 2 + ngd /\ rd m0 (a_word t) = a_base t /\ sp0 + 3 <= a_base t /\ 0 <= a_len t /\ a_base t + a_len t <= MAXW /\
+    (exists ar, assoc x arrs = Some ar /\ alen ar = a_len t /\ PositiveMap.is_empty (acells ar) = true) /\
+    (~ In x vals /\ assoc x vars = None) /\
+    forall x' t', In (x', t') ars -> x = x' \/ a_base t + a_len t <= a_base t' \/ a_base t' + a_len t' <= a_base t.
+  Hypothesis Hwords : NoDup (map snd vs ++ map (fun xt => a_word (snd xt)) ars).
   Hypothesis Hbr : exists e, code_chk lab img 0 [BR L_start] = Some e /\ e <= 4.
   Hypothesis Hstub : exists e, code_chk lab img clo (stub1 (entry_label mi) ++ stub2) = Some e /\ e <= 4 * nwords.
   Hypothesis Hb0 : bytes_ok m0 img 0 4 = true.
   Hypothesis Hb1 : bytes_ok m0 img clo (Z.to_nat (4 * nwords - clo)) = true.
-  Hypothesis Hchk : ents_chk lab img gaddr vals maxframe clo (4 * nwords) es 0 = true.
+  Hypothesis Hchk : ents_chk lab img gaddr aaddr vals maxframe clo (4 * nwords) es 0 = true.
   Hypothesis Hroom : nwords + 2000 * maxframe <= sp0.
+  Hypothesis Hsp0 : sp0 + 3 <= MAXW.
 
-  Lemma geometry : 2 <= cw /\ cw <= nwords /\ 0 <= clo <= 4 * nwords /\ nwords + 4000 <= sp0 /\ 4 * nwords < W.
+  Lemma geometry : 2 <= cw /\ cw <= nwords /\ 0 <= clo <= 4 * nwords /\ nwords + 4000 <= sp0 /\ 4 * nwords < W /\ sp0 + 3 <= MEMW.
   Proof.
     destruct Hstub as (e & He & Hle). pose proof (code_chk_le _ _ _ _ _ He) as H1. pose proof (maxframe_ge2 es) as H2.
-    unfold sp0, W in *. lia.
+    unfold MAXW, MEMW, W in *. lia.
   Qed.
 
   Lemma holds0 m : Cw m -> holds m img 0 4.
@@ -362,103 +474,132 @@ Section Run.
   Qed.
   Lemma holds1 m : Cw m -> holds m img clo (4 * nwords).
   Proof.
-    destruct geometry as (G1 & G2 & G3 & G4 & G5).
+    destruct geometry as (G1 & G2 & G3 & G4 & G5 & G6).
     replace (4 * nwords) with (clo + Z.of_nat (Z.to_nat (4 * nwords - clo))) by (rewrite Z2Nat.id; lia).
     apply bytes_ok_holds; [exact Hb1 | lia|].
-    intros q Hq. rewrite Z2Nat.id in Hq by lia. right. rewrite Hclo in Hq.
+    intros q Hq. rewrite Z2Nat.id in Hq by lia. right. right. rewrite Hclo in Hq.
     split; [apply Z.div_le_lower_bound; lia | apply Z.div_lt_upper_bound; lia].
   Qed.
   Lemma code_in lo c e : code_chk lab img lo c = Some e -> clo <= lo -> e <= 4 * nwords -> code_at Cw lab lo c e.
   Proof.
-    intros Hc Hlo He. destruct geometry as (G1 & G2 & G3 & G4 & G5). pose proof (code_chk_le _ _ _ _ _ Hc) as Hle.
+    intros Hc Hlo He. destruct geometry as (G1 & G2 & G3 & G4 & G5 & G6). pose proof (code_chk_le _ _ _ _ _ Hc) as Hle.
     apply (code_chk_sound Cw c lab img lo e Hc); [lia | lia|].
     intros m Hm. exact (holds_sub m img clo (4 * nwords) lo e (holds1 m Hm) Hlo He).
   Qed.
 
-  Variables (gv : list (string * Z)) (vars : list (string * value)) (arrs : list (string * arr)).
-  Hypothesis Hinit : init_globals (globals p) [] [] [] = inr (gv, vars, arrs).
   Notation ge := {| g_vals := gv; g_procs := procs p; g_maxdepth := default_depth |}.
 
-  Lemma gv_names x : assoc x gv <> None -> In x vals.
-  Proof.
-    intros H. destruct (init_globals_spec _ _ _ _ _ _ _ _ Hg Hinit) as (_ & B & _).
-    destruct (B x H) as [Hin|Hn]; [exact Hin | exfalso; apply Hn; reflexivity].
-  Qed.
-  Lemma gvars_init x : In x gnames -> assoc x vars = Some Vundef.
-  Proof.
-    intros H. destruct (init_globals_spec _ _ _ _ _ _ _ _ Hg Hinit) as (_ & _ & D & E).
-    destruct (assoc x vars) as [v|] eqn:Ev; [|exfalso; exact (E x (or_introl H) Ev)].
-    destruct (D x v Ev) as [->|Hs]; [reflexivity | discriminate Hs].
-  Qed.
-  Lemma gaddr_spec x a : gaddr x = Some a -> exists k, nth_error gnames k = Some x /\ a = 2 + Z.of_nat k /\ (k < List.length gnames)%nat.
-  Proof.
-    unfold gaddr_of. intros H. destruct (index_of_spec _ _ _ _ H) as (k & Hk & ->). exists k. split; [exact Hk|]. split; [reflexivity|].
-    apply nth_error_Some. congruence.
-  Qed.
   Lemma not_val_none x : ~ In x vals -> assoc x gv = None.
-  Proof. intros H. destruct (assoc x gv) eqn:E; [|reflexivity]. exfalso. apply H. apply gv_names. congruence. Qed.
-
-  Lemma the_hyps : prog_hyps ge gaddr pool0 Pw m0 lab pinfo nwords maxframe.
+  Proof. apply assoc_notin. Qed.
+  Lemma tbl_addr a : In a (map snd tbl) -> 2 + ngd <= a < cw.
+  Proof. intros H. apply in_map_iff in H. destruct H as ([v a'] & <- & Hin). exact (proj1 (Htbl v a' Hin)). Qed.
+  Lemma zassoc_in v : forall t a, zassoc v t = Some a -> In (v, a) t.
   Proof.
-    destruct geometry as (G1 & G2 & G3 & G4 & G5). pose proof (maxframe_ge2 es) as Gm.
-    unfold prog_hyps. split; [|split; [|split; [|split; [|split; [|split; [|split]]]]]].
+    induction t as [|[k a0] r IH]; intros a H; cbn [zassoc] in H; [discriminate|].
+    destruct (k =? v) eqn:E; [apply Z.eqb_eq in E; inversion H; subst; left; reflexivity | right; exact (IH _ H)].
+  Qed.
+  (* an array of the table *)
+  Lemma aaddr_spec a w : aaddr a = Some w -> exists t, In (a, t) ars /\ assoc a ars = Some t /\ a_word t = w /\ abase a = a_base t /\ alen_of a = a_len t.
+  Proof.
+    unfold aaddr_of, abase_of, alen_of_tab. destruct (assoc a ars) as [t|] eqn:E; [|discriminate]. cbn [option_map]. intros H. inversion H; subst w.
+    exists t. split; [exact (assoc_in _ _ _ E)|]. repeat split.
+  Qed.
+
+  Lemma the_hyps : prog_hyps ge gaddr aaddr abase alen_of pool Pw m0 lab pinfo nwords stack_hi maxframe.
+  Proof.
+    destruct geometry as (G1 & G2 & G3 & G4 & G5 & G6). pose proof (maxframe_ge2 es) as Gm.
+    unfold prog_hyps. split; [|split; [|split; [|split; [|split; [|split; [|split; [|split; [|split; [|split]]]]]]]]].
     - intros x pi Hx. destruct (pinfo_go_spec _ _ _ _ Hx) as (k & pr & Hk & Hf & Hen & Hif). cbn [Nat.add] in Hen.
-      destruct (ents_go_spec _ _ _ _ _ _ Hents k pr Hk) as (e & n' & Hek & Hpe & Hcs).
-      destruct (ents_chk_spec _ _ _ _ _ _ _ _ _ Hchk k e Hek) as (Hsb & Hnb & _ & Hlo & endp & Hcc & Hend). cbn [Nat.add] in Hlo, Hcc.
+      destruct (ents_go_spec _ _ _ _ _ _ _ _ Hents k pr Hk) as (e & n' & Hek & Hpe & Hcs).
+      destruct (ents_chk_spec _ _ _ _ _ _ _ _ _ _ Hchk k e Hek) as (Hsb & Hnb & _ & Hlo & endp & Hcc & Hend). cbn [Nat.add] in Hlo, Hcc.
       rewrite Hen. split; [lia|].
       exists pr, (map formal_nm (formals pr)), (map local_decl_name (locals pr)), (pe_lay e), (pe_body e), n', endp.
       cbn [g_procs]. split; [exact Hf|]. split; [exact Hif|]. rewrite Hpe in Hsb, Hnb.
-      split; [exact (simple_procb_sound _ _ Hsb)|]. split; [exact (numbers_okb_sound _ _ _ Hnb)|]. split; [exact Hcs|].
+      split; [exact (simple_procb_sound _ _ _ Hsb)|]. split; [exact (numbers_okb_sound _ _ _ Hnb)|]. split; [exact Hcs|].
       split; [|lia]. unfold pe_code in Hcc. rewrite Hpe in Hcc. exact (code_in _ _ _ Hcc Hlo Hend).
-    - intros x a Hx. destruct (gaddr_spec x a Hx) as (k & Hk & -> & Hkl). cbn [g_vals].
-      split; [apply in_mem_of; unfold MEMW, sp0 in *; lia|]. split; [unfold Pw; lia|]. split; [lia|]. split; [lia|].
-      apply not_val_none. apply Hgv. eapply nth_error_In. exact Hk.
-    - intros x y a b Hx Hy Hne Heq. destruct (gaddr_spec x a Hx) as (k & Hk & -> & _). destruct (gaddr_spec y b Hy) as (k' & Hk' & -> & _).
-      assert (k = k') by lia. subst k'. rewrite Hk in Hk'. inversion Hk'. contradiction.
-    - split; [lia|]. intros a Ha. unfold Pw. lia.
-    - unfold Pw. lia.
-    - intros v a H. discriminate H.
+    - intros x a Hx. apply assoc_in in Hx. destruct (Hvs x a Hx) as (Hr & Hnv & _). cbn [g_vals].
+      split; [apply in_mem_of; unfold MEMW in *; lia|]. split; [intros [Hq|[Hq|Hq]]; [lia | apply tbl_addr in Hq; lia | lia]|].
+      split; [lia|]. split; [lia|]. exact (not_val_none x Hnv).
+    - intros x y a b Hx Hy Hne Heq. subst b. apply assoc_in in Hx. apply assoc_in in Hy.
+      pose proof (nodup_map_inj snd vs (x, a) (y, a) (nodup_app_l _ _ Hwords) Hx Hy eq_refl) as He. inversion He. contradiction.
+    - split; [lia|]. intros a Ha [Hq|[Hq|Hq]]; [lia | apply tbl_addr in Hq; lia | lia].
+    - intros [Hq|[Hq|Hq]]; [lia | apply tbl_addr in Hq; lia | lia].
+    - intros v a H. apply zassoc_in in H. destruct (Htbl v a H) as [Hr Hv].
+      split; [right; left; apply in_map_iff; exists (v, a); split; [reflexivity | exact H]|].
+      split; [apply in_mem_of; unfold MEMW in *; lia | exact Hv].
     - intros x pi Hx. destruct (pinfo_go_spec _ _ _ _ Hx) as (k & pr & Hk & Hf & _ & _).
-      destruct (ents_go_spec _ _ _ _ _ _ Hents k pr Hk) as (e & n' & Hek & Hpe & _).
-      destruct (ents_chk_spec _ _ _ _ _ _ _ _ _ Hchk k e Hek) as (_ & _ & Hm & _).
+      destruct (ents_go_spec _ _ _ _ _ _ _ _ Hents k pr Hk) as (e & n' & Hek & Hpe & _).
+      destruct (ents_chk_spec _ _ _ _ _ _ _ _ _ _ Hchk k e Hek) as (_ & _ & Hm & _).
       cbn [g_vals]. apply not_val_none. rewrite Hpe, (find_proc_name _ _ _ Hf) in Hm. exact (mem_str_notin _ _ Hm).
     - lia.
+    - exact G6.
+    - (* the arrays *)
+      intros a w Hw. destruct (aaddr_spec a w Hw) as (t & Hin & _ & <- & Hb & Hl).
+      destruct (Hars a t Hin) as (A1 & A2 & A3 & A4 & A5 & _).
+      split; [apply in_mem_of; unfold MEMW in *; lia|]. split; [intros [Hq|[Hq|Hq]]; [lia | apply tbl_addr in Hq; lia | lia]|].
+      split; [lia|]. split; [lia|]. split.
+      + intros x g Hg Heq. apply assoc_in in Hg.
+        refine (nodup_app_disj _ _ g Hwords _ _).
+        * apply in_map_iff. exists (x, g). split; [reflexivity | exact Hg].
+        * rewrite Heq. apply in_map_iff. exists (a, t). split; [reflexivity | exact Hin].
+      + intros i Hi. rewrite Hb. rewrite Hl in Hi. split; [unfold MAXW, MEMW in *; lia|].
+        intros [Hq|[Hq|Hq]]; [lia | apply tbl_addr in Hq; lia | lia].
+    - (* different cells *)
+      intros a w a' w' i i' Hw Hw' Hi Hi' Heq.
+      destruct (aaddr_spec a w Hw) as (t & Hin & Has & _ & Hb & Hl). destruct (aaddr_spec a' w' Hw') as (t' & Hin' & Has' & _ & Hb' & Hl').
+      rewrite Hb, Hb' in Heq. rewrite Hl in Hi. rewrite Hl' in Hi'.
+      destruct (Hars a t Hin) as (_ & _ & _ & _ & _ & _ & _ & Hd). destruct (Hd a' t' Hin') as [<-|[Hlt|Hlt]]; [|lia|lia].
+      rewrite Has in Has'. inversion Has'; subst t'. split; [reflexivity | lia].
   Qed.
 
   (* ---- the run: reset, the entry stub, main called from the root frame, the exit stub *)
   Variable inp : list Z.
   Notation cin := (console_input inp).
 
-  Lemma root_simple : simple_proc gaddr pr_root [] [].
-  Proof. split; [reflexivity|]. split; [reflexivity|]. split; [constructor|]. intros x []. Qed.
-  Lemma root_frame : frame_ok gaddr nwords maxframe pr_root [] [] L_root sp0.
+  Lemma root_simple : simple_proc gaddr aaddr pr_root [] [].
+  Proof. split; [split; [reflexivity | intros f []]|]. split; [reflexivity|]. split; [constructor|]. split; intros x []. Qed.
+  Lemma root_frame : frame_ok gaddr aaddr nwords stack_hi maxframe pr_root [] [] L_root sp0.
   Proof.
-    destruct geometry as (G1 & G2 & G3 & G4 & G5). pose proof (maxframe_ge2 es) as Gm.
+    destruct geometry as (G1 & G2 & G3 & G4 & G5 & G6). pose proof (maxframe_ge2 es) as Gm.
     split; [exact root_simple|]. split; [unfold numbers_ok, L_root, first_temp; cbn; lia|].
-    unfold foff, sp0, MEMW in *. cbn. lia.
+    unfold foff, MEMW in *. cbn. lia.
   Qed.
 
   Definition state0 (steps : Z) : state :=
     {| gvars := vars; garrs := arrs; out_rev := []; input := inp; ncons := 0%nat; budget := steps; cur := eff0;
        stk := [{| f_vars := []; f_vals := []; f_depth := 0%nat |}] |}.
 
-  Lemma root_rel steps : Rel pinfo (Dq_of ge nwords maxframe sp0) (frame_venv gaddr pr_root (pl_size L_root)) ge Pw m0 sp0 (state0 steps) m0.
+  Lemma root_rel steps : Rel pinfo (Dq_of ge nwords maxframe sp0) (frame_venv gaddr pr_root (pl_size L_root)) (frame_aenv aaddr pr_root (pl_size L_root))
+                             (garr_of aaddr) abase alen_of ge Pw m0 sp0 (state0 steps) m0.
   Proof.
-    destruct geometry as (G1 & G2 & G3 & G4 & G5). destruct the_hyps as (_ & H2 & _).
+    destruct geometry as (G1 & G2 & G3 & G4 & G5 & G6). destruct the_hyps as (_ & H2 & _).
     split; [|split; [|split; [|split]]].
     - intros a _ _. reflexivity.
     - exact Hsp.
-    - split.
+    - split; [split | split].
       + intros x a Hx.
-        destruct (frame_venv_spec gaddr pr_root [] [] _ x _ root_simple Hx) as [(j & Hj & _)|[(i & Hi & _)|(_ & a0 & Ha0 & Hq)]];
+        destruct (frame_venv_spec gaddr aaddr pr_root [] [] _ x _ root_simple Hx) as [(j & Hj & _)|[(i & Hi & _)|(_ & a0 & Ha0 & Hq)]];
           [destruct j; discriminate Hj | destruct i; discriminate Hi|].
         inversion Hq; subst a0. destruct (H2 x a Ha0) as (_ & _ & _ & _ & G). cbn [g_vals] in G.
         split; [reflexivity|]. split; [reflexivity|]. split; [exact G|].
-        exists Vundef. split; [|left; reflexivity]. cbn [gvars state0]. apply gvars_init.
-        destruct (gaddr_spec x a Ha0) as (k & Hk & _). eapply nth_error_In. exact Hk.
+        exists Vundef. split; [|left; reflexivity]. cbn [gvars state0]. apply assoc_in in Ha0. exact (proj2 (proj2 (Hvs x a Ha0))).
       + intros x k Hx.
-        destruct (frame_venv_spec gaddr pr_root [] [] _ x _ root_simple Hx) as [(j & Hj & _)|[(i & Hi & _)|(_ & a0 & Ha0 & Hq)]];
+        destruct (frame_venv_spec gaddr aaddr pr_root [] [] _ x _ root_simple Hx) as [(j & Hj & _)|[(i & Hi & _)|(_ & a0 & Ha0 & Hq)]];
           [destruct j; discriminate Hj | destruct i; discriminate Hi | discriminate Hq].
+      + (* the names of the arrays: the root frame sees the global arrays only *)
+        intros a l Hal.
+        destruct (frame_aenv_spec gaddr aaddr pr_root [] [] _ a l root_simple Hal) as [(i & Hi & _)|(_ & w & Hw & ->)]; [destruct i; discriminate Hi|].
+        destruct (aaddr_spec a w Hw) as (t & Hin & _ & <- & Hb & Hl).
+        destruct (Hars a t Hin) as (_ & A2 & _ & _ & _ & (ar & Har & Hlen & Hemp) & _).
+        exists a. split; [|split; [unfold garr_of; rewrite Hw; reflexivity|]; split; [cbn [waddr]; rewrite Hb; exact A2 | intros; reflexivity]].
+        right. cbn [top stk state0 f_vars f_vals garrs]. split; [reflexivity|]. split; [reflexivity|]. split; [rewrite Har; discriminate | reflexivity].
+      + (* the cells: declared, with their lengths, nothing assigned yet *)
+        intros g Hg. unfold garr_of in Hg. destruct (aaddr_of ars g) as [w|] eqn:Hw; [|discriminate].
+        destruct (aaddr_spec g w Hw) as (t & Hin & _ & _ & Hb & Hl).
+        destruct (Hars g t Hin) as (_ & _ & _ & _ & _ & (ar & Har & Hlen & Hemp) & (Hnv & Hnvar) & _).
+        cbn [g_vals gvars garrs state0]. split; [exact (not_val_none g Hnv)|]. split; [exact Hnvar|].
+        exists ar. split; [exact Har|]. split; [rewrite Hl; exact Hlen|].
+        intros i n _ Hf. exfalso. apply PositiveMap.is_empty_2 in Hemp. apply PositiveMap.find_2 in Hf. exact (Hemp _ _ Hf).
     - split; [discriminate|]. intros q qi _. reflexivity.
     - unfold Dq_of. cbn [top stk state0 f_depth g_maxdepth]. rewrite Nat.sub_0_r. unfold default_depth. rewrite Z2Nat.id by lia. lia.
   Qed.
@@ -471,8 +612,8 @@ Section Run.
     | Ret _ s => finish s 0 | Halt c s => finish s c | Fail u => Undef u end = Behaviour b ->
     exists n, isa_shows words inp n b.
   Proof.
-    intros Hb. destruct geometry as (G1 & G2 & G3 & G4 & G5).
-    destruct the_hyps as (H1 & H2 & H3 & H4 & H5 & H6 & H7 & H8).
+    intros Hb. destruct geometry as (G1 & G2 & G3 & G4 & G5 & G6).
+    destruct the_hyps as (H1 & H2 & H3 & H4 & H5 & H6 & H7 & H8 & H9 & H10 & H11).
     destruct (find_index_spec _ _ _ _ _ Hmain) as [Hfm Hpi]. destruct Hpm as [Hpm1 Hpm2].
     set (pi_main := {| pf_entry := entry_label mi; pf_isfunc := is_func pm |}) in *.
     assert (Crefl : Cw m0) by (intros a _ _; reflexivity).
@@ -500,7 +641,7 @@ Section Run.
     pose proof (taus_trans cin _ _ _ T0 (taus_trans cin _ _ _ T1 T2)) as Tstart.
     (* main, called from the root frame *)
     assert (Hko : koff pi_main = 1) by (unfold koff, pi_main; cbn [pf_isfunc]; rewrite Hpm1; reflexivity).
-    pose proof (call_ok ge gaddr pool0 Pw m0 lab pinfo nwords maxframe H1 H2 H3 H4 H5 H6 H7 H8 fuel pr_root [] [] L_root sp0 root_frame
+    pose proof (call_ok ge gaddr aaddr abase alen_of pool Pw m0 lab pinfo nwords stack_hi maxframe H1 H2 H3 H4 H5 H6 H7 H8 H9 H10 H11 fuel pr_root [] [] L_root sp0 root_frame
                   "main" pi_main [] (state0 steps) m0 q 0 cin Hpi (root_rel steps)) as R.
     specialize (R ltac:(intros i v Hi; destruct i; discriminate Hi) ltac:(rewrite Hko; cbn; lia) ltac:(lia)).
     cbn [pf_isfunc pf_entry pi_main] in R. rewrite Hpm1 in R.
@@ -508,15 +649,15 @@ Section Run.
     - (* main returns: the exit stub *)
       destruct R as (outs & a1 & b1 & m1 & R1 & HR1 & P1 & _).
       destruct HR1 as (HC1 & HS1 & _). destruct P1 as (Po & _ & Pn & _). cbn [out_rev ncons state0] in Po, Pn.
-      assert (Sin : in_mem (sp0 + 2) = true) by (apply in_mem_of; unfold sp0, MEMW; lia).
-      assert (Sw : wrap (sp0 + 2) = sp0 + 2) by (apply wrap_id; unfold sp0, MEMW; lia).
+      assert (Sin : in_mem (sp0 + 2) = true) by (apply in_mem_of; unfold MEMW in *; lia).
+      assert (Sw : wrap (sp0 + 2) = sp0 + 2) by (apply wrap_id; unfold MEMW in *; lia).
       pose proof (exec_instr Cw lab m1 q r1 (LDBM 1) a1 b1 cin eq_refl Hj1 HC1 eq_refl ltac:(lia)) as U1. cbn [sem fst snd] in U1. rewrite HS1 in U1.
       pose proof (exec_instr Cw lab m1 r1 r2 (LDAC 0) a1 sp0 cin eq_refl Hj2 HC1 I ltac:(lia)) as U2. cbn [sem fst snd] in U2. change (0 mod W) with 0 in U2.
       assert (R3 : readable (STAI 2) 0 sp0) by (cbn [readable]; rewrite Sw; exact Sin).
       pose proof (exec_instr Cw lab m1 r2 r3 (STAI 2) 0 sp0 cin eq_refl Hj3 HC1 R3 ltac:(lia)) as U3. cbn [sem fst snd] in U3. rewrite Sw in U3.
       set (m2 := wr m1 (sp0 + 2) 0) in *.
-      assert (HC2 : Cw m2) by (apply Cm_wr; [exact HC1 | unfold sp0; lia | unfold Pw, sp0 in *; lia]).
-      assert (H12 : rd m2 1 = sp0) by (unfold m2; rewrite rd_wr_other; [exact HS1 | unfold sp0; lia | lia | unfold sp0; lia]).
+      assert (HC2 : Cw m2) by (apply Cm_wr; [exact HC1 | lia | intros [Hq|[Hq|Hq]]; [lia | apply tbl_addr in Hq; lia | lia]]).
+      assert (H12 : rd m2 1 = sp0) by (unfold m2; rewrite rd_wr_other; [exact HS1 | lia | lia | lia]).
       assert (Hin2 : in_mem (wrap (rd m2 1 + 2)) = true) by (rewrite H12, Sw; exact Sin).
       pose proof (exec_svc_exit Cw lab m2 r3 e1 sp0 cin Hj4 HC2 Hin2) as U4.
       rewrite H12, Sw in U4. unfold m2 in U4 at 2. rewrite rd_wr_same in U4.
@@ -527,7 +668,7 @@ Section Run.
       unfold finish in Hb. inversion Hb; subst b. cbn [outputs consumed exit_value console console_input].
       split; [rewrite writes_wr_ev, Po, app_nil_r, rev_involutive; reflexivity|]. split; [rewrite Pn; lia | reflexivity].
     - (* the program exits by itself *)
-      destruct R as (outs & Ex & (Po & _ & Pn & _)). cbn [out_rev ncons state0] in Po, Pn.
+      destruct R as (outs & Ex & (Po & _ & Pn)). cbn [out_rev ncons state0] in Po, Pn.
       pose proof (taus_exits cin _ _ _ _ _ Tstart Ex) as Hex. destruct Hex as (k & s' & Hrun).
       exists k. unfold isa_shows. rewrite boot_state, Hrun.
       unfold finish in Hb. inversion Hb; subst b. cbn [outputs consumed exit_value console console_input].
@@ -536,37 +677,73 @@ Section Run.
 End Run.
 
 (* ---------------------------------------------------------------- the theorem *)
-Theorem program_correct : forall (fr : frames) (p : program) (inp : list Z) (b : behaviour) (img : list Z),
-  XSem.run p inp = Behaviour b -> model_compile fr false p = Some img -> exists n, isa_shows img inp n b.
+Theorem program_correct : forall (prm : params) (p : program) (inp : list Z) (b : behaviour) (img : list Z),
+  XSem.run p inp = Behaviour b -> model_compile prm false p = Some img -> exists n, isa_shows img inp n b.
 Proof.
-  intros fr p inp b img Hrun Hmc. unfold model_compile in Hmc.
-  destruct (gvar_names (globals p)) as [gnames|] eqn:Hg; [|discriminate].
+  intros prm p inp b img Hrun Hmc. unfold model_compile in Hmc.
+  destruct (gdecls (globals p)) as [gd|] eqn:Hgd; [|discriminate].
+  destruct (init_globals (globals p) [] [] []) as [u|[[gv vars] arrs]] eqn:Hinit; [discriminate|].
+  destruct (gtab gd 2 MAXW) as [[[vs ars] gwords] atop] eqn:Hgt.
+  destruct (pool_go (p_pool prm) (procs p) [] (2 + Z.of_nat (List.length gd))) as [tbl dwords] eqn:Hpool.
   destruct (find_index "main" (procs p) 0) as [[mi pm]|] eqn:Hmain; [|discriminate].
-  destruct (ents_go fr (pinfo_go (procs p) 0) (gaddr_of gnames) (procs p) 0) as [es|] eqn:Hents; [|discriminate].
+  destruct (ents_go (p_frames prm) (pinfo_go (procs p) 0) (fun x => assoc x vs) (aaddr_of ars) (fun v => zassoc v tbl) (procs p) 0) as [es|] eqn:Hents; [|discriminate].
   destruct (assemble_directives _ []) as [out| | |] eqn:Hasm; try discriminate.
   cbv beta iota zeta in Hmc.
   match type of Hmc with (if ?c then _ else _) = _ => destruct c eqn:E; [|discriminate] end.
   inversion Hmc; subst img. clear Hmc.
+  apply andb_prop in E. destruct E as [E A16]. apply andb_prop in E. destruct E as [E A15]. apply andb_prop in E. destruct E as [E A14].
+  apply andb_prop in E. destruct E as [E A13].
   apply andb_prop in E. destruct E as [E A12]. apply andb_prop in E. destruct E as [E A11]. apply andb_prop in E. destruct E as [E A10].
   apply andb_prop in E. destruct E as [E A9]. apply andb_prop in E. destruct E as [E A8]. apply andb_prop in E. destruct E as [E A7].
-  apply andb_prop in E. destruct E as [E A6]. apply andb_prop in E. destruct E as [E A5]. apply andb_prop in E. destruct E as [E A4].
+  apply andb_prop in E. destruct E as [E A5]. apply andb_prop in E. destruct E as [E A4].
   apply andb_prop in E. destruct E as [E A3]. apply andb_prop in E. destruct E as [A1 A2].
-  apply Bool.negb_true_iff in A1. apply Z.eqb_eq in A3. apply Z.eqb_eq in A4. apply Z.leb_le in A12.
+  apply Bool.negb_true_iff in A1. apply Z.eqb_eq in A3. apply Z.eqb_eq in A4. apply Z.leb_le in A15.
   assert (Hfm : formals pm = []) by (destruct (formals pm); [reflexivity | discriminate A2]).
-  assert (Hgv : forall x, In x gnames -> ~ In x (gval_names (globals p))).
-  { intros x Hx. rewrite forallb_forall in A6. specialize (A6 x Hx). apply Bool.negb_true_iff in A6. exact (mem_str_notin _ _ A6). }
+  set (ngd := Z.of_nat (List.length gd)) in *. set (sp0 := atop - 3) in *.
+  assert (Htbl : forall v a, In (v, a) tbl -> 2 + ngd <= a < 2 + ngd + Z.of_nat (List.length dwords) /\ rd (mem_of (ao_image out)) a = v mod W).
+  { intros v a Hin. rewrite forallb_forall in A5. specialize (A5 (v, a) Hin). cbn [fst snd] in A5.
+    apply andb_prop in A5. destruct A5 as [A5 C3]. apply andb_prop in A5. destruct A5 as [C1 C2].
+    apply Z.leb_le in C1. apply Z.ltb_lt in C2. apply Z.eqb_eq in C3. split; [lia | exact C3]. }
+  assert (Hvs : forall x w, In (x, w) vs -> 2 <= w < 2 + ngd /\ ~ In x (map fst gv) /\ assoc x vars = Some Vundef).
+  { intros x w Hin. rewrite forallb_forall in A7. specialize (A7 (x, w) Hin). cbn [fst snd] in A7.
+    apply andb_prop in A7. destruct A7 as [A7 C4]. apply andb_prop in A7. destruct A7 as [A7 C3]. apply andb_prop in A7. destruct A7 as [C1 C2].
+    apply Z.leb_le in C1. apply Z.ltb_lt in C2. apply Bool.negb_true_iff in C3.
+    split; [lia|]. split; [exact (mem_str_notin _ _ C3)|].
+    destruct (assoc x vars) as [[| | |]|]; try discriminate C4. reflexivity. }
+  assert (Hars : forall x t, In (x, t) ars ->
+    2 <= a_word t < 2 + ngd /\ rd (mem_of (ao_image out)) (a_word t) = a_base t /\ sp0 + 3 <= a_base t /\ 0 <= a_len t /\ a_base t + a_len t <= MAXW /\
+    (exists ar, assoc x arrs = Some ar /\ alen ar = a_len t /\ PositiveMap.is_empty (acells ar) = true) /\
+    (~ In x (map fst gv) /\ assoc x vars = None) /\
+    forall x' t', In (x', t') ars -> x = x' \/ a_base t + a_len t <= a_base t' \/ a_base t' + a_len t' <= a_base t).
+  { intros x t Hin. rewrite forallb_forall in A8. specialize (A8 (x, t) Hin). cbn [fst snd] in A8.
+    apply andb_prop in A8. destruct A8 as [A8 C8]. apply andb_prop in A8. destruct A8 as [A8 C10]. apply andb_prop in A8. destruct A8 as [A8 C9].
+    apply andb_prop in A8. destruct A8 as [A8 C7]. apply andb_prop in A8. destruct A8 as [A8 C6].
+    apply andb_prop in A8. destruct A8 as [A8 C5]. apply andb_prop in A8. destruct A8 as [A8 C4]. apply andb_prop in A8. destruct A8 as [A8 C3].
+    apply andb_prop in A8. destruct A8 as [C1 C2].
+    apply Z.leb_le in C1. apply Z.ltb_lt in C2. apply Z.eqb_eq in C3. apply Z.leb_le in C4. apply Z.leb_le in C5. apply Z.leb_le in C6.
+    split; [lia|]. split; [exact C3|]. split; [exact C4|]. split; [exact C5|]. split; [exact C6|]. split; [|split].
+    - destruct (assoc x arrs) as [ar|]; [|discriminate C7]. apply andb_prop in C7. destruct C7 as [D1 D2]. apply Z.eqb_eq in D1.
+      exists ar. split; [reflexivity|]. split; assumption.
+    - apply Bool.negb_true_iff in C9. split; [exact (mem_str_notin _ _ C9)|]. destruct (assoc x vars); [discriminate C10 | reflexivity].
+    - intros x' t' Hin'. rewrite forallb_forall in C8. specialize (C8 (x', t') Hin'). cbn [fst snd] in C8.
+      apply Bool.orb_true_iff in C8. destruct C8 as [C8|C8]; [apply Bool.orb_true_iff in C8; destruct C8 as [C8|C8]|].
+      + left. apply String.eqb_eq. exact C8.
+      + right. left. apply Z.leb_le. exact C8.
+      + right. right. apply Z.leb_le. exact C8. }
+  assert (Hwords : NoDup (map snd vs ++ map (fun xt => a_word (snd xt)) ars)).
+  { apply zdup_nodup. apply Bool.negb_true_iff in A9. exact A9. }
   assert (Hbr : exists e, code_chk (lab_of (ao_layout out)) (bytes_map (ao_image out)) 0 [BR L_start] = Some e /\ e <= 4).
-  { destruct (code_chk _ _ 0 [BR L_start]) as [e|]; [|discriminate A7]. exists e. split; [reflexivity | apply Z.leb_le; exact A7]. }
+  { destruct (code_chk _ _ 0 [BR L_start]) as [e|]; [|discriminate A10]. exists e. split; [reflexivity | apply Z.leb_le; exact A10]. }
   assert (Hstub : exists e, code_chk (lab_of (ao_layout out)) (bytes_map (ao_image out)) (lab_of (ao_layout out) L_start)
                               (stub1 (entry_label mi) ++ stub2) = Some e /\
                             e <= 4 * Z.of_nat (List.length (words_of_bytes (ao_image out)))).
-  { destruct (code_chk _ _ (lab_of (ao_layout out) L_start) (stub1 (entry_label mi) ++ stub2)) as [e|]; [|discriminate A8].
-    exists e. split; [reflexivity | apply Z.leb_le; exact A8]. }
+  { destruct (code_chk _ _ (lab_of (ao_layout out) L_start) (stub1 (entry_label mi) ++ stub2)) as [e|]; [|discriminate A11].
+    exists e. split; [reflexivity | apply Z.leb_le; exact A11]. }
+  assert (Hsp0 : sp0 + 3 <= MAXW) by (apply Z.leb_le; exact A16).
   (* the spec run *)
   unfold XSem.run, run_fuel in Hrun.
-  destruct (wf_program p); [discriminate|].
-  destruct (init_globals (globals p) [] [] []) as [u|[[gv vars] arrs]] eqn:Hinit; [discriminate|].
+  destruct (wf_program p); [discriminate|]. rewrite Hinit in Hrun.
   destruct (find_index_spec _ _ _ _ _ Hmain) as [Hfp _]. rewrite Hfp in Hrun. rewrite A1, Hfm in Hrun. cbn [orb negb] in Hrun.
-  exact (invoke_shows fr p gnames mi pm es out Hg Hmain Hents (conj A1 Hfm) A3 A4 Hgv Hbr Hstub A9 A10 A11 A12
-                      gv vars arrs Hinit inp default_fuel default_steps b Hrun).
+  exact (invoke_shows (p_frames prm) p vs ars ngd sp0 mi pm es out tbl (List.length dwords) gv vars arrs ltac:(unfold ngd; lia) Hmain Hents Htbl
+                      (conj A1 Hfm) A3 A4 Hvs Hars Hwords Hbr Hstub A12 A13 A14 A15 Hsp0 inp default_fuel default_steps b Hrun).
 Qed.
